@@ -1,16 +1,23 @@
 package main
 
-// Replay of behaviours of the Core family (spec/Core.tla).
-
 import (
-	"bytes"
-	"fmt"
-
-	"github.com/utreexo/utreexo"
+	"strconv"
+	"strings"
 )
 
+// Replay of behaviours of the Core family (spec/Core.tla).
+
+
 func (r *Runner) coreWorld() *World {
-	return NewWorld(r.sy, WorldCfg{Rows: rowsFor(r.cfg.Tier), Seed: r.cfg.Seed,
+	rows := rowsFor(r.cfg.Tier)
+	if v := optVal(r.extra, "rows", ""); v != "" {
+		rows = nil
+		for _, x := range strings.Split(v, ";") {
+			n, _ := strconv.Atoi(x)
+			rows = append(rows, uint8(n))
+		}
+	}
+	return NewWorld(r.sy, WorldCfg{Rows: rows, Seed: r.cfg.Seed,
 		Stump: true, Pollard: true, MapFull: true, MapPart: true})
 }
 
@@ -18,8 +25,11 @@ func (r *Runner) replayCore(l *Line) lineResult {
 	r.internLine(l)
 	w := r.coreWorld()
 	res := lineResult{insts: len(w.insts)}
+	w.serial = r.serial
+	w.evlog = r.logEvent
 	for i := range l.Hist {
 		w.stepI = i
+		w.histSoFar = l.Hist[:i]
 		w.coreStep(&l.Hist[i], nil)
 		if w.encRejected {
 			break
@@ -27,6 +37,7 @@ func (r *Runner) replayCore(l *Line) lineResult {
 	}
 	if !w.encRejected {
 		w.stepI = len(l.Hist)
+		w.histSoFar = l.Hist
 		w.coreStep(&l.Step, &l.Expect)
 	}
 	if w.encRejected {
@@ -37,6 +48,12 @@ func (r *Runner) replayCore(l *Line) lineResult {
 	}
 	res.fails = w.fails
 	res.calls = w.mon.ncalls
+	if w.nserial > 0 {
+		if res.extra == nil {
+			res.extra = map[string]int{}
+		}
+		res.extra["fault_runs"] = w.nserial
+	}
 	st := &l.Step
 	res.nontrivial = st.A == "prove" || st.A == "undo" || st.A == "restore" || len(st.D) > 0 || st.K > 0
 	return res
@@ -62,7 +79,11 @@ func (w *World) coreStep(st *Step, exp *Expect) {
 		w.applyProve(st, exp)
 		return
 	case "restore":
-		w.applyRestore()
+		// the fault enumeration runs on the state of the last step only
+		ser := w.serial
+		w.serial = ser && exp != nil
+		w.applyRestore(exp, w.histSoFar)
+		w.serial = ser
 		w.ctx["C13"] = true
 	default:
 		panic("unknown step " + st.A)
@@ -76,61 +97,45 @@ func (w *World) coreStep(st *Step, exp *Expect) {
 }
 
 // applyRestore serializes every forest and continues on the restored copy.
-func (w *World) applyRestore() {
-	for _, in := range w.insts {
-		in := in
-		var err error
-		pan := protect(func() {
-			switch in.Kind {
-			case KPollard:
-				var buf bytes.Buffer
-				var wn, rn int64
-				size := in.P.SerializeSize()
-				wn, err = in.P.WriteTo(&buf)
-				if err != nil {
-					return
-				}
-				if int(wn) != buf.Len() || size != buf.Len() {
-					w.fail([]string{"C13"}, in, "bytecount", "WriteTo count / SerializeSize", buf.Len(), []int{int(wn), size})
-				}
-				total := buf.Len()
-				var p *utreexo.Pollard
-				rn, p, err = utreexo.RestorePollardFrom(&buf)
-				if err != nil {
-					return
-				}
-				if int(rn) != total {
-					w.fail([]string{"C13"}, in, "bytecount", "RestorePollardFrom count", total, rn)
-				}
-				in.P = p
-			case KMapFull, KMapPart:
-				var buf bytes.Buffer
-				var wn, rn int
-				wn, err = in.M.Write(&buf)
-				if err != nil {
-					return
-				}
-				if wn != buf.Len() {
-					w.fail([]string{"C13"}, in, "bytecount", "Write count", buf.Len(), wn)
-				}
-				total := buf.Len()
-				m := utreexo.NewMapPollard(in.Kind == KMapFull)
-				rn, err = m.Read(&buf)
-				if err != nil {
-					return
-				}
-				if rn != total {
-					w.fail([]string{"C13"}, in, "bytecount", "Read count", total, rn)
-				}
-				in.M = &m
+func (w *World) applyRestore(exp *Expect, hist []Step) {
+	// the leaves a full forest tracks are the live ones: replayed from the steps
+	live := map[int]bool{}
+	n := 0
+	var stack []map[int]bool
+	var nstack []int
+	for i := range hist {
+		st := &hist[i]
+		switch st.A {
+		case "mod":
+			cp := map[int]bool{}
+			for k := range live {
+				cp[k] = true
 			}
-		})
-		if pan != "" {
-			w.fail([]string{"C13"}, in, "panic", "serialization panicked: "+pan, nil, nil)
-		} else if err != nil {
-			w.fail([]string{"C13"}, in, "error", fmt.Sprintf("round trip failed: %v", err), nil, nil)
+			stack = append(stack, cp)
+			nstack = append(nstack, n)
+			for _, d := range st.D {
+				delete(live, d)
+			}
+			for k := 0; k < st.K; k++ {
+				live[n+k] = true
+			}
+			n += st.K
+		case "undo":
+			live = stack[len(stack)-1]
+			n = nstack[len(nstack)-1]
+			stack = stack[:len(stack)-1]
+			nstack = nstack[:len(nstack)-1]
 		}
 	}
+	w.roundTrip(w.n, func(in *Inst) []int {
+		out := []int{}
+		for s := 0; s < n; s++ {
+			if live[s] && (in.Kind != KMapPart || in.cached[s]) {
+				out = append(out, s)
+			}
+		}
+		return out
+	})
 }
 
 // internLine makes every hash term that occurs in the line known to the
